@@ -368,6 +368,27 @@ func (e *SpecEnv) binary(n *EBin) (Val, error) {
 	c := e.c
 	switch n.Op {
 	case "&&", "||", "==>", "<==>":
+		if n.Op == "==>" && e.facts != nil {
+			// type invariants of the heap values read by an implication belong
+			// under its guard: premises when proving, conclusions when assuming
+			outer := e.facts
+			e.facts = &[]string{}
+			a, err := e.boolTerm(n.L)
+			if err != nil {
+				e.facts = outer
+				return Val{}, err
+			}
+			b, err := e.boolTerm(n.R)
+			fs := dedupStrs(*e.facts)
+			e.facts = outer
+			if err != nil {
+				return Val{}, err
+			}
+			if e.goal {
+				return Val{T: implies(and(append(fs, a)...), b), Typ: boolT}, nil
+			}
+			return Val{T: implies(a, and(append(fs, b)...)), Typ: boolT}, nil
+		}
 		a, err := e.boolTerm(n.L)
 		if err != nil {
 			return Val{}, err
@@ -509,15 +530,65 @@ func (e *SpecEnv) binary(n *EBin) (Val, error) {
 }
 
 func smtIntConst(s string) (*big.Int, bool) {
-	if strings.HasPrefix(s, "(- ") && strings.HasSuffix(s, ")") {
-		n, ok := new(big.Int).SetString(s[3:len(s)-1], 10)
-		if ok {
-			return n.Neg(n), true
-		}
+	xs := parseSx(s)
+	if len(xs) != 1 {
 		return nil, false
 	}
-	n, ok := new(big.Int).SetString(s, 10)
-	return n, ok
+	return foldSx(xs[0])
+}
+
+// foldSx evaluates a closed integer term built from numerals and + - * div mod.
+func foldSx(x *sx) (*big.Int, bool) {
+	if x.list == nil {
+		n, ok := new(big.Int).SetString(x.atom, 10)
+		return n, ok
+	}
+	if len(x.list) < 2 || x.list[0].list != nil {
+		return nil, false
+	}
+	op := x.list[0].atom
+	var args []*big.Int
+	for _, a := range x.list[1:] {
+		v, ok := foldSx(a)
+		if !ok {
+			return nil, false
+		}
+		args = append(args, v)
+	}
+	switch op {
+	case "+":
+		r := big.NewInt(0)
+		for _, a := range args {
+			r = new(big.Int).Add(r, a)
+		}
+		return r, true
+	case "*":
+		r := big.NewInt(1)
+		for _, a := range args {
+			r = new(big.Int).Mul(r, a)
+		}
+		return r, true
+	case "-":
+		if len(args) == 1 {
+			return new(big.Int).Neg(args[0]), true
+		}
+		r := args[0]
+		for _, a := range args[1:] {
+			r = new(big.Int).Sub(r, a)
+		}
+		return r, true
+	case "mod":
+		if len(args) == 2 && args[1].Sign() > 0 {
+			return new(big.Int).Mod(args[0], args[1]), true // Euclidean, as in SMT-LIB
+		}
+	case "div":
+		if len(args) == 2 && args[1].Sign() > 0 {
+			q, m := new(big.Int).DivMod(args[0], args[1], new(big.Int))
+			_ = m
+			return q, true
+		}
+	}
+	return nil, false
 }
 
 func (e *SpecEnv) ident(name string) (Val, error) {
@@ -716,8 +787,17 @@ func (e *SpecEnv) index(n *EIndex) (Val, error) {
 	switch u := x.Typ.Underlying().(type) {
 	case *types.Slice:
 		h, srt := c.memHeap(u.Elem())
-		rt := "(select (select " + c.heapGet(e.cur, h, srt) + " (sl.base " + x.T + ")) " + c.eidx("(sl.off "+x.T+")", e.idx(i)) + ")"
+		hv := c.heapGet(e.cur, h, srt)
+		rt := "(select (select " + hv + " (sl.base " + x.T + ")) " + c.eidx("(sl.off "+x.T+")", e.idx(i)) + ")"
 		e.readFact(rt, u.Elem())
+		if e.facts != nil {
+			switch u.Elem().Underlying().(type) {
+			case *types.Pointer, *types.Interface, *types.Map:
+				if fr, ok := c.frontier[hv]; ok && fr != "" {
+					*e.facts = append(*e.facts, c.typeFacts(rt, u.Elem(), fr))
+				}
+			}
+		}
 		return Val{T: rt, Typ: u.Elem()}, nil
 	case *types.Array:
 		return Val{T: "(select " + x.T + " " + e.idx(i) + ")", Typ: u.Elem(), NoFacts: x.NoFacts}, nil
@@ -921,6 +1001,14 @@ func (e *SpecEnv) call(n *ECall) (Val, error) {
 				t = types.Typ[types.Int]
 			}
 			return Val{T: c.eidx(e.idx(a), e.idx(b)), Typ: t}, nil
+		case "entry":
+			// entry(p): the value parameter p had on entry (heap reads through it use the current state)
+			if id, ok := n.Args[0].(*EIdent); ok && e.f != nil {
+				if v, ok := e.f.params[id.Name]; ok {
+					return v, nil
+				}
+			}
+			return Val{}, fmt.Errorf("entry(x): x must be a parameter")
 		case "oldghost":
 			// oldghost(g, x): ghost field g in the entry state of the object x denotes now
 			gid, ok := n.Args[0].(*EIdent)
@@ -975,7 +1063,11 @@ func (e *SpecEnv) call(n *ECall) (Val, error) {
 			if err != nil {
 				return Val{}, err
 			}
-			tt, err := e.resolveType(exprString(n.Args[1]))
+			tname := exprString(n.Args[1])
+			if l, ok := n.Args[1].(*ELit); ok && l.Kind == "string" {
+				tname, _ = strconv.Unquote(l.Val)
+			}
+			tt, err := e.resolveType(tname)
 			if err != nil {
 				return Val{}, err
 			}
